@@ -92,7 +92,19 @@ func ReadZipTar(r io.Reader) (*Directory, error) {
 		return nil, errors.New("invalid tarzip")
 	}
 	zr := &zipTarReader{tr: tr}
-	return ReadStream(zr, hdr.Size, zipdir)
+	d, err := ReadStream(zr, hdr.Size, zipdir)
+	if err != nil {
+		return nil, err
+	}
+	// the size of the zip must agree with where its end record puts the directory
+	cdOffset := int64(d.end.CDOffset)
+	if d.end.TotalCDCount == uint16Max || d.end.CDSize == uint32Max || d.end.CDOffset == uint32Max {
+		cdOffset = int64(d.end64.CDOffset)
+	}
+	if cdOffset != d.DirLoc {
+		return nil, errors.New("invalid tarzip")
+	}
+	return d, nil
 }
 
 type zipTarReader struct {
